@@ -1,3 +1,4 @@
+@duration.setter
 def spec(self, value):
     value = argtest.gte('duration', value, 0, float)
     setattr(self.__owner(), self.__attributes.duration, value)
